@@ -17,16 +17,16 @@ checks = {
  "C09": dict(engine="E1", cat="exploration", ref="§3 C09", technique="deterministic simulation: invocation-count oracle under frozen / dripping / deadline-approaching fake clock with stale fail files on disk",
              text="Counts valid / skipped / failing random test cases of real Check runs from the recorded history: exactly N valid cases then OK and nothing more; 'only generated' + FailNow when 10*N skipped; never a vacuous pass when the clock is driven to the deadline; no fresh case after the first falsified one; fail files replayed first."),
  "C10": dict(engine="E1", cat="exploration", ref="§3 C10", technique="deterministic simulation: bracket automaton over the event history of every invocation kind + bubble quiescence for Done()-waiters",
-             text="A bracket automaton is fed the global event sequence of failing, minimizing, persisting Checks (hundreds of invocations of all kinds, cut by the clock): context live and unique during the call, cancelled before any cleanup, cleanups exactly once and LIFO incl. ones registered during cleanup and after panics, everything closed before the next invocation; goroutines parked on Done() must all be released (synctest quiescence)."),
+             text="A bracket automaton is fed the global event sequence of failing, minimizing, persisting Checks (hundreds of invocations of all ten kinds, cut by the clock; plus Generator.Example on retried Custom generators and MakeFuzz on arbitrary bytes): context live and unique during the call, cancelled before any cleanup, cleanups exactly once and LIFO incl. ones registered during cleanup and after panics, everything closed before the next invocation; goroutines parked on Done() must all be released (synctest quiescence)."),
  "C02": dict(engine="E1", cat="exploration", ref="§3 C02", technique="deterministic simulation: enumerated kind x context x position matrix of failure signals inside simulated Check histories; conservation oracle",
-             text="The finite matrix (14 failure kinds x 8 callback contexts in which a *T is available x 7 positions of the falsifying case within the run) is enumerated cell by cell over run indices; around each cell seed, checks, steps and clock are sampled; conservation oracle: a recorded failure signal on any *T rapid handed out implies the TB is failed (and FailNow) when Check returns; skips and passes alone never fail it."),
+             text="The finite matrix (16 failure kinds incl. empty-message Error()/Errorf(\"\") x 8 callback contexts in which a *T is available x 8 positions of the falsifying case within the run incl. 'signal, then a Skip raised from a cleanup' = 778 cells) is enumerated cell by cell over run indices, each followed by 0-3 later statements (Custom draws, filters that give up, state machines, cleanups) that must not un-signal it; every fourth run is a generated program under the same oracle; around each cell seed, checks, steps and clock are sampled; conservation oracle: a recorded failure signal on any *T rapid handed out implies the TB is failed (and FailNow) when Check returns; skips and passes alone never fail it."),
  "C04": dict(engine="E1", cat="exploration", ref="§3 C04", technique="deterministic simulation: multi-phase process histories (warm-ups, same seed twice, record -> prune -> replay, fail -> restart -> replay, raw recording via MakeFuzz, cold OS process vs warm) with draw-log equivalence oracles",
-             text="Replay-equivalence over histories: same seed twice in different bubbles; reproduction = failing case; any two invocations started from identical words behave identically; the presented case (replay of the pruned recording) draws what the last recording run drew minus rejected attempts; restart over the same directory replays the same values; the unpruned recording through MakeFuzz reproduces the recorded run; the same tape in a fresh OS process (cold caches) gives the same history as in a process that ran other checks before."),
+             text="Replay-equivalence over histories: same seed twice in different bubbles; reproduction = failing case; any two invocations started from identical words behave identically; the presented case (replay of the pruned recording) draws what the last recording run drew minus rejected attempts; restart over the same directory replays the same values; the unpruned recording through MakeFuzz reproduces the recorded run; every run starts from recreated process-wide caches, so its warm history is exactly the warm-ups on its tape, and the same tape in a fresh OS process (cold) must give the same history (look-alike regexps probe cache keying); a sampled run that behaves differently in the warm worker than in two agreeing fresh processes is reported as process-history dependence with an index-range replay."),
  "C06": dict(engine="E1", cat="exploration", ref="§3 C06", technique="deterministic simulation: two-run history fail -> restart -> rerun on a real scratch FS with hostile names/outputs, clock jumps within and between runs",
-             text="Run 1 fails with fail files enabled (hostile test names and logged output, empty bitstreams, clock cuts); exactly one new *.fail file must appear below testdata/rapid/ and be named in the message; after a restart (same second / +1 s / +1 year) the next Check, without flag or with -rapid.failfile on a moved copy, must replay exactly the minimized words before any random case and fail after 0 tests with the same message and values."),
+             text="Run 1 fails with fail files enabled (hostile test names and logged output, empty bitstreams, clock cuts); exactly one new *.fail file must appear below testdata/rapid/ and be named in the message; after a restart (a new bubble, or a new OS process running the same worker binary; same second / +1 s / +1 year) the next Check, without flag or with -rapid.failfile on a moved copy, must replay exactly the minimized words before any random case and fail after 0 tests with the same message and values."),
  "C14": dict(engine="E2", cat="exploration", ref="§3 C14", technique="deterministic simulation: seeded schedule search with a controlled scheduler over real goroutines (yields at rapid's own sync operations); race detector as happens-before oracle; porcupine linearizability vs a sequential T model; conservation checks",
              note="Trusted base: Go 1.26.8 runtime and race detector (happens-before based: under the serialised execution it reports a race iff two accesses are unordered by rapid's own synchronisation, because the baton hand-off uses raw futex calls in norace functions); the go/types-driven yield rewrite of a scratch copy (instrument.log lists every site); porcupine v1.3.0; for data-race-free code all behaviours are interleavings at synchronisation operations (DRF-SC), so yields at sync ops plus the race oracle lose nothing statement-level preemption would find. Seeded search: evidence, not proof.",
-             text="1-4 simulated goroutines plus the property's own goroutine call Helper/Name/Log/Logf/Error/Errorf/Fail/Failed/Context/Cleanup on one *T (also a Custom generator's inner T) under a seeded scheduler (uniform, bursty, PCT d<=3) that decides every switch at rapid's own lock/unlock/atomic operations; oracles: zero race reports with a rapid frame, linearizable invoke/return history against a sequential model of T, every signal falsifies the case (verdict fail, never flaky or pass), cleanups registered = run exactly once, one live context per invocation cancelled afterwards, no deadlock."),
+             text="1-4 simulated goroutines plus the property's own goroutine (joined before the property returns, or - 30% - only by the first-registered cleanup, so that they keep running during rapid's cleanup phase) call Helper/Name/Log/Logf/Error/Errorf/Fail/Failed/Context/Cleanup on one *T (also a Custom generator's inner T) under a seeded scheduler (uniform, bursty, PCT d<=3) that decides every switch at rapid's own lock/unlock/atomic operations; oracles: zero race reports with a rapid frame, linearizable invoke/return history against a sequential model of T, every signal falsifies the case (verdict fail, never flaky or pass), cleanups registered = run exactly once, one live context per invocation cancelled afterwards, no deadlock."),
  "C15": dict(engine="E2", cat="exploration", ref="§3 C15", technique="deterministic simulation: seeded schedule search over first/later uses of one shared generator by concurrently running checks; race detector as happens-before oracle; differential oracle against solo runs",
              note="Trusted base: as C14 (race detector as HB oracle under a baton scheduler without harness-induced edges; yield rewrite; process-wide caches and package-level generators are recreated before every run by an injected helper so that every run starts cold). Seeded search: evidence, not proof.",
              text="One freshly built generator expression (Deferred, Custom, Filter, Map, OneOf, StringMatching, String, SampledFrom, SliceOfN, nested) is shared by 2-4 simulated goroutines, each a check with its own T (passing Check, failing and minimizing Check, Example, String, use as sub-generator); the scheduler interleaves first uses with later uses at rapid's Once/sync.Map operations and at every draw; oracles: zero race reports with a rapid frame; every use observes exactly what it observes alone on a fresh generator (incl. the whole minimization trajectory)."),
